@@ -45,6 +45,7 @@ def run_getter(prog: Program, clskey: str, name: str, field: str, src: T.Term, m
     st = I.new_state()
     if minlen is not None:
         st.minlen[src] = minlen
+    ci.require_attrs([field], "symbolic parser")
     obj = st.alloc(HeapObj("obj", ci, {field: src}, [], False, "parser", True))
     outs = I.run(fi, {fi.params[0]: obj}, st)
     return outs, fi
@@ -54,6 +55,10 @@ def joined_value(outs: List[Outcome]) -> Optional[T.Term]:
     rets = [o for o in outs if o.kind == "return"]
     if not rets:
         return None
+    from ..interp import first_match_table
+    fm = first_match_table(rets)
+    if fm is not None:
+        return fm
     val: Optional[T.Term] = None
     for o in reversed(rets):
         val = o.value if val is None else ite(conj(o.state.pc), o.value, val)
@@ -157,6 +162,9 @@ def run(prog: Program, rep: Report, tier: str) -> None:
                     record(field_ok, fname, f"UNDECIDED:{T.contains_top(got)}")
                     continue
                 want = expected_role(prog, spec, role, state_term)
+                # a getter that branches at statement level yields one path per case: compare case-wise
+                from ..frames import restrict as _restrict
+                got_r, want_r = _restrict(got, o.state.pc), _restrict(want, o.state.pc)
                 if role in ("power_if_on", "amps_if_on"):
                     # statement-level branch: the value depends on the path's guard
                     cond_on = state_is_on(state_term, on)
@@ -178,13 +186,15 @@ def run(prog: Program, rep: Report, tier: str) -> None:
                         record(field_ok, "R5.5:" + fname, None)
                     continue
                 if role == "remaining_if_on":
-                    good = canon(got) == canon(want)
+                    good = canon(got) == canon(want) or canon(got_r) == canon(want_r)
                     record(field_ok, "R5.5:" + fname, None if good else f"{fname} is {T.show(got)[:160]}; expected {T.show(want)[:160]}")
                     continue
-                alts = [want]
+                alts = [want, want_r]
                 if role in spec["getters"]:
                     alts += [LS.term_of(prog, a, MSG) for a in spec["getters"][role].get("accept", [])]
-                if all(canon(got) != canon(w_) for w_ in alts) and (T.imprecise(got) is not None):
+                if canon(got_r) == canon(want_r):
+                    record(field_ok, fname, None)
+                elif all(canon(got) != canon(w_) for w_ in alts) and (T.imprecise(got) is not None):
                     record(field_ok, fname, f"UNDECIDED:{T.imprecise(got)}")
                 elif all(canon(got) != canon(w_) for w_ in alts):
                     record(field_ok, fname, f"{cn}.{fname} for {m} is {T.show(got)[:200]}; expected role {role}: {T.show(want)[:200]}")
